@@ -5,12 +5,16 @@ from __future__ import annotations
 import ast
 
 from ..astutil import (
-    block_of, call_name, calls_in, dotted, enclosing_stmt, guard_atoms, lexical_guards, mutating_calls, name_stores,
+    attr_stores, block_of, call_name, calls_in, dotted, enclosing_stmt, guard_atoms, lexical_guards, mutating_calls, name_stores,
     subscript_stores, test_atoms, unparse, walk_local,
 )
 from ..report import Registry, sub
 from ._helpers_rules_b import (
     ORD, PARAM, SET, TAINTED, UNKNOWN, arg_for, call_sites, ordinal_keys, topo_flow,
+)
+from ._helpers_rob_e1 import (
+    Raised, TinyPy, Unsupported, cfg_atoms, cfg_guards, comp_guards, expand, is_attr_chain, module_functions, once_bound,
+    resolve_name, virtual_return,
 )
 
 R = Registry(
@@ -36,34 +40,73 @@ TOPO = "util/topological.py"
 STC = f"{DDL}::sort_tables_and_constraints"
 
 
-def topo_orientation(ctx):
-    """(prerequisite index, dependent index) of a pair as read by sort_as_subsets:
-    `for (a, b) in pairs: E[x].add(y)` makes x wait for y."""
-    f = ctx.func(f"{TOPO}::sort_as_subsets")
-    pairs_p = f.params[0]
-    found = None
-    for n in walk_local(f.node):
-        if isinstance(n, ast.For) and isinstance(n.iter, ast.Name) and n.iter.id == pairs_p \
-                and isinstance(n.target, ast.Tuple) and len(n.target.elts) == 2 \
-                and all(isinstance(e, ast.Name) for e in n.target.elts):
-            names = [e.id for e in n.target.elts]
-            for c in calls_in(n):
-                fn_ = c.func
-                if isinstance(fn_, ast.Attribute) and fn_.attr in ("add", "append") and isinstance(fn_.value, ast.Subscript) \
-                        and len(c.args) == 1 and isinstance(c.args[0], ast.Name) and isinstance(fn_.value.slice, ast.Name):
-                    waits, on = fn_.value.slice.id, c.args[0].id
-                    if waits in names and on in names and waits != on:
-                        found = (names.index(on), names.index(waits), fn_.value.value.id)
-    ctx.require(found is not None, "cannot read the pair orientation of topological.sort_as_subsets")
-    # the map must be what gates emission (subscripted by the candidate node inside the emission test)
-    E = found[2]
-    gated = any(
-        isinstance(n, ast.If) and any(isinstance(s, ast.Subscript) and isinstance(s.value, ast.Name) and s.value.id == E
-                                      for s in ast.walk(n.test))
-        for n in walk_local(f.node)
-    )
-    ctx.require(gated, f"edge map `{E}` of sort_as_subsets does not gate emission (see C19-R2)")
-    return found[0], found[1]
+def _topo_interp(ctx):
+    m = ctx.index.module(TOPO)
+    return TinyPy(module_functions(m)), m
+
+
+def topo_orientation(ctx, entry="sort"):
+    """(prerequisite index, dependent index) of a pair as read by util.topological.<entry>.
+
+    Observed, not pattern matched: the function is interpreted (TinyPy: an AST interpreter, nothing is imported)
+    on the probe `pairs = [(X, Y)]` with the items given in both orders.  The component that is emitted first in
+    BOTH runs is the prerequisite; if the order of the items decides, the pairs do not gate emission."""
+    f = ctx.func(f"{TOPO}::{entry}")
+    ctx.functions_analysed.add(f.key)
+    ctx.functions_analysed.add(f"{TOPO}::sort_as_subsets")
+    ctx.require(len(f.params) >= 2, f"{entry} no longer takes (edge pairs, items)")
+    firsts = []
+    for items in (["y", "x"], ["x", "y"]):
+        tp, _m = _topo_interp(ctx)
+        try:
+            out = tp.call(f.node, [{("x", "y")}, list(items)])
+        except Unsupported as e:
+            ctx.error(f"cannot interpret util.topological.{entry} on the orientation probe: {e}")
+        except Raised as e:
+            ctx.error(f"util.topological.{entry} raises {e.exc_name()} on an acyclic two-node probe")
+        flat = []
+        for x in out or []:
+            flat.extend(x if isinstance(x, (list, tuple, set)) else [x])
+        ctx.require(sorted(flat) == ["x", "y"], f"util.topological.{entry} does not emit exactly the given items on the probe ({flat})")
+        firsts.append(flat[0])
+    ctx.require(len(set(firsts)) == 1,
+                f"the edge pairs of util.topological.{entry} do not gate emission: the probe pair (x, y) is emitted in the "
+                f"order of the items ({firsts}) (see C19-R2)")
+    return (0, 1) if firsts[0] == "x" else (1, 0)
+
+
+def error_edges_orientation(ctx, entry="sort"):
+    """How CircularDependencyError.edges relates to the input pairs, observed on a 3-cycle probe:
+    'same' (the reported edges are the input pairs), 'reversed', or a description of something else."""
+    f = ctx.func(f"{TOPO}::{entry}")
+    init = ctx.func("exc.py::CircularDependencyError.__init__")
+    ps = [p for p in init.params if p != "self"]
+    ctx.require("edges" in ps, "CircularDependencyError.__init__ has no `edges` parameter")
+    stored = [getattr(st, "value", None) for d, _t, st in attr_stores(init.node) if d == "self.edges"]
+    ctx.require(stored and all(isinstance(v, ast.Name) and v.id == "edges" for v in stored),
+                "CircularDependencyError.__init__ does not store its `edges` argument as self.edges")
+    pairs = {("a", "b"), ("b", "c"), ("c", "a")}
+    tp, _m = _topo_interp(ctx)
+    try:
+        tp.call(f.node, [set(pairs), ["a", "b", "c"]])
+    except Raised as e:
+        ctx.require(e.exc_name() == "CircularDependencyError", f"util.topological.{entry} raises {e.exc_name()} on a cycle")
+        try:
+            edges = e.arg(ps.index("edges"), "edges")
+        except Unsupported as u:
+            ctx.error(f"cannot interpret the `edges` argument of CircularDependencyError in util.topological: {u}")
+        try:
+            got = {tuple(x) for x in edges}
+        except TypeError:
+            ctx.error(f"CircularDependencyError.edges is not a collection of pairs on the probe: {edges!r}")
+        if got == pairs:
+            return "same", got
+        if got == {(b, a) for a, b in pairs}:
+            return "reversed", got
+        return f"neither the input pairs nor their reversal: {sorted(got)}", got
+    except Unsupported as e:
+        ctx.error(f"cannot interpret util.topological.{entry} on the cycle probe: {e}")
+    ctx.error(f"util.topological.{entry} does not raise CircularDependencyError on a 3-cycle")
 
 
 def _derives_from(name: str, root: str, fn, depth=0, seen=None) -> list:
@@ -199,27 +242,13 @@ def r1(ctx):
                   f"cycle handler binds `{nm} = edge[{idx}]`, but the dependent table (owner of the foreign keys to "
                   f"defer) is component {dep_i} of an edge",
                   f"`{nm} = edge[{idx}]` is the dependent end", f"{f.module.path}:{st.lineno}")
-    # CircularDependencyError.edges: _gen_edges returns pairs oriented like the input
-    ge = ctx.func(f"{TOPO}::_gen_edges")
-    comp = None
-    for r in walk_local(ge.node):
-        if isinstance(r, ast.Return) and isinstance(r.value, (ast.SetComp, ast.ListComp, ast.GeneratorExp)):
-            comp = r.value
-    ctx.require(comp is not None and isinstance(comp.elt, ast.Tuple) and len(comp.elt.elts) == 2 and len(comp.generators) == 2,
-                "_gen_edges is not a two-level comprehension of pairs")
-    g0, g1 = comp.generators
-    ctx.require(isinstance(g0.target, ast.Name) and isinstance(g1.target, ast.Name), "_gen_edges targets not names")
-    keyvar, member = g0.target.id, g1.target.id
-    # members of E[key] are the prerequisites of key (sort_as_subsets builds E[dependent].add(prerequisite))
-    inner_ok = isinstance(g1.iter, ast.Subscript) and unparse(g1.iter.slice) == keyvar
-    ctx.require(inner_ok, "_gen_edges inner loop is not over E[key]")
-    got = [unparse(e) for e in comp.elt.elts]
-    want = [None, None]
-    want[pre_i], want[dep_i] = member, keyvar
-    ctx.check(got == want, f"{TOPO}::_gen_edges:orientation",
-              f"_gen_edges yields {tuple(got)} but input pairs are oriented {tuple(want)} (prerequisite, dependent): "
-              f"`edge in mutable_dependencies` in the DDL cycle handler would never match",
-              f"error edges are ({member}, {keyvar}) = (prerequisite, dependent)", ge.loc)
+    # CircularDependencyError.edges: the reported edges are oriented like the input pairs (observed on a cycle probe)
+    ge = ctx.func(f"{TOPO}::_gen_edges") if ctx.index.has(f"{TOPO}::_gen_edges") else ctx.func(f"{TOPO}::sort_as_subsets")
+    how, got = error_edges_orientation(ctx)
+    ctx.check(how == "same", f"{TOPO}::_gen_edges:orientation",
+              f"for the cyclic input pairs (a, b), (b, c), (c, a) CircularDependencyError.edges is {sorted(got)} ({how}) but input "
+              f"pairs are (prerequisite, dependent): `edge in mutable_dependencies` in the DDL cycle handler would never match",
+              "error edges of a 3-cycle probe are exactly the input pairs = (prerequisite, dependent)", ge.loc)
 
 
 def _parity(expr, fn, ctx, of, at, depth=0):
